@@ -102,7 +102,7 @@ class EdgeSpanningTree(SpanningTree):
         """
         output = PolyLine()
         for v in self.mesh.vertices:
-            output.vertices.append(v)
+            output.vertices.append(v.copy())
         for v,father in self.traverse():
             if father is None: continue
             output.edges.append(keyify(v, father))
